@@ -30,6 +30,7 @@ func TestC01Gate(t *testing.T) {
 			t.Fatalf("dial: %v", err)
 		}
 		defer c.CloseNow()
+		startReader(c)
 		n := rapid.IntRange(1, 6).Draw(t, "n")
 		var texts []string
 		var want []string
